@@ -815,6 +815,25 @@ fn field_mutations(b: &Block, others: &[Block], v2: &Identity, forger: &Identity
     let mut x = b.clone();
     x.signatures.push(ValidatorSignature { validator: forger.node_id(), signature: vec![1, 2, 3], block_hash: x.hash() });
     out.push(("signatures: bogus co-signature added".into(), x));
+    // co-signatures that name a registered validator: each one is wrong in exactly one respect
+    let h = b.hash();
+    let cosig = |name: &str, signature: Vec<u8>, block_hash: [u8; 32], out: &mut Vec<(String, Block)>| {
+        let mut x = b.clone();
+        x.signatures.push(ValidatorSignature { validator: v2.node_id(), signature, block_hash });
+        out.push((format!("signatures: {name}"), x));
+    };
+    cosig("registered co-signer, right hash, garbage signature", vec![9; 64], h, &mut out);
+    let mut bit = v2.sign(&h);
+    bit[5] ^= 1;
+    cosig("registered co-signer, genuine co-signature with one bit flipped", bit, h, &mut out);
+    cosig("registered co-signer, genuine co-signature truncated", v2.sign(&h)[..63].to_vec(), h, &mut out);
+    cosig("registered co-signer, right hash, signature by a non-validator", forger.sign(&h), h, &mut out);
+    for o in others {
+        let oh = o.hash();
+        cosig(&format!("registered co-signer, genuine co-signature of block {}", o.header.height), v2.sign(&oh), oh, &mut out);
+        cosig(&format!("registered co-signer, right hash, signature made for block {}", o.header.height), v2.sign(&oh), h, &mut out);
+        cosig(&format!("registered co-signer, genuine signature but names block {}", o.header.height), v2.sign(&h), oh, &mut out);
+    }
     out
 }
 fn tamper_signature(orig: &Block, mutated: Option<&Block>, fields: &[&str]) -> String {
